@@ -20,6 +20,10 @@ Proof.
   - intros n _. cbn. rewrite Nnat.Nat2N.id. reflexivity.
 Qed.
 
+Lemma chk_ok v l k : Nat.eqb (data_len v) (shape_prod (shape_of v)) = true ->
+  check_shape true (Some (MV v l k)) = Some (MV v l k).
+Proof. intros H. cbn [check_shape andb]. rewrite H. reflexivity. Qed.
+
 (** F64Rep *)
 Notation fj := (f64rep_json true).
 Notation pf := (p_f64rep true).
@@ -88,7 +92,7 @@ Section Self.
   Lemma p_array_metaless kind sh c :
     p_coll true self kind [] (JArr [shape_json sh; c]) = None ->
     p_scalar true self kind (JArr [shape_json sh; c]) = None ->
-    p_array true self kind (JArr [shape_json sh; c]) = option_map (fun v => MV v None None) (p_coll true self kind sh c).
+    p_array true self kind (JArr [shape_json sh; c]) = check_shape true (option_map (fun v => MV v None None) (p_coll true self kind sh c)).
   Proof.
     intros H1 H2. unfold p_array. rewrite H1, H2. rewrite p_shape_json. reflexivity.
   Qed.
@@ -118,7 +122,7 @@ Section Cases.
   Variable self : json -> option mval.
 
   Definition arr (k : nat) (sh : list nat) (c : json) : option mval :=
-    option_map (fun v => MV v None None) (p_coll true self k sh c).
+    check_shape true (option_map (fun v => MV v None None) (p_coll true self k sh c)).
 
   (** [shape, coll] *)
   Lemma meta_0 sh c : p_array true self 0 (JArr [shape_json sh; c]) = arr 0 sh c.
@@ -182,13 +186,13 @@ Section Cases.
   Qed.
   Lemma cX_not_complex' d : p_complex (cX d) = None.
   Proof. destruct d as [|a [|b [|? ?]]]; reflexivity. Qed.
-  Lemma boxed_ok x : self (to_json true x) = Some (MV (norm x) None None) -> p_boxed self (boxj x) = Some (norm x).
+  Lemma boxed_ok x : self (to_json true x) = Some (MV (norm x) None None) -> p_boxed true self (boxj x) = Some (norm x).
   Proof. intros H. unfold boxj, p_boxed. cbn [assoc]. change (text_eqb K_B K_B) with true. cbn iota. rewrite H. reflexivity. Qed.
   Lemma cX_4 sh d : Forall (fun x => self (to_json true x) = Some (MV (norm x) None None)) d ->
     p_coll true self 4 sh (cX d) = Some (VBox sh (map norm d)).
   Proof.
     intros H. destruct d as [|x d]; [reflexivity|]. unfold cX. cbn [p_coll].
-    rewrite (opt_map_map (p_boxed self) boxj norm); [reflexivity|].
+    rewrite (opt_map_map (p_boxed true self) boxj norm); [reflexivity|].
     intros y Hy. rewrite Forall_forall in H. apply boxed_ok. apply H. exact Hy.
   Qed.
 End Cases.
@@ -202,6 +206,8 @@ Qed.
 
 Section Main.
   Variable self : json -> option mval.
+
+  Ltac chk H := cbn [option_map]; first [rewrite chk_ok by (cbn [data_len shape_of]; exact H) | cbn [check_shape]].
 
   Lemma rt_num sh d : wf_shape (VNum sh d) = true -> repr_ok (VNum sh d) = true ->
     p_value true self (to_json true (VNum sh d)) = Some (MV (norm (VNum sh d)) None None).
@@ -226,8 +232,8 @@ Section Main.
       rewrite (p_array_simple self 1%nat _ Hnt), cN_1 by auto. reflexivity.
     - change (to_json true (VNum (n :: n2 :: sh') d)) with (JArr [shape_json (n :: n2 :: sh'); cN d]).
       unfold p_value. rewrite meta_0. unfold arr. rewrite cN_0.
-      destruct d as [|x d]; [reflexivity|]. cbn [option_map].
-      rewrite meta_1. unfold arr. rewrite cN_1 by auto. reflexivity.
+      destruct d as [|x d]; [chk Hwf; reflexivity|]. chk Hwf.
+      rewrite meta_1. unfold arr. rewrite cN_1 by auto. chk Hwf. reflexivity.
   Qed.
 
   Lemma rt_byte sh d : wf_shape (VByte sh d) = true -> repr_ok (VByte sh d) = true ->
@@ -243,15 +249,16 @@ Section Main.
       { destruct d as [|a [|b [|c [|? ?]]]]; try exact I; reflexivity. }
       unfold p_value. rewrite (p_array_simple self 0%nat _ Hnt), cB_0 by auto. reflexivity.
     - change (to_json true (VByte (n :: n2 :: sh') d)) with (JArr [shape_json (n :: n2 :: sh'); cB d]).
-      unfold p_value. rewrite meta_0. unfold arr. rewrite cB_0 by auto. reflexivity.
+      unfold p_value. rewrite meta_0. unfold arr. rewrite cB_0 by auto. chk Hwf. reflexivity.
   Qed.
 
   Lemma rt_char sh d : wf_shape (VChar sh d) = true ->
     p_value true self (to_json true (VChar sh d)) = Some (MV (VChar sh d) None None).
   Proof.
     intros Hwf. cbn [wf_shape data_len shape_of] in Hwf.
-    assert (Hm : forall sh', p_value true self (JArr [shape_json sh'; JStr d]) = Some (MV (VChar sh' d) None None)).
-    { intros sh'. unfold p_value. rewrite meta_0, meta_1, meta_2, meta_3 by reflexivity. reflexivity. }
+    assert (Hm : p_value true self (JArr [shape_json sh; JStr d]) = Some (MV (VChar sh d) None None)).
+    { unfold p_value. rewrite meta_0, meta_1, meta_2, meta_3 by reflexivity. unfold arr. cbn [p_coll option_map].
+      rewrite chk_ok by (cbn [data_len shape_of]; exact Hwf). reflexivity. }
     cbn [to_json]. destruct (is_spelling d) eqn:Es; cbn [andb]; [apply Hm|].
     destruct sh as [|n [|n2 sh']]; [apply Hm | | apply Hm].
     rewrite (rank1_shape _ _ Hwf). unfold p_value.
@@ -263,10 +270,10 @@ Section Main.
     p_value true self (to_json true (VCplx sh d)) = Some (MV (VCplx sh d) None None).
   Proof.
     intros Hwf Hp. cbn [wf_shape data_len shape_of] in Hwf. cbn [repr_ok] in Hp.
-    assert (Hm : forall sh', to_json true (VCplx sh' d) = JArr [shape_json sh'; cC d] ->
-                 p_value true self (to_json true (VCplx sh' d)) = Some (MV (VCplx sh' d) None None)).
-    { intros sh' ->. unfold p_value. rewrite meta_0, meta_1, (meta_2 _ _ _ (cC_not_complex d)). unfold arr.
-      rewrite !cC_other by tauto. rewrite cC_2 by auto. reflexivity. }
+    assert (Hm : to_json true (VCplx sh d) = JArr [shape_json sh; cC d] ->
+                 p_value true self (to_json true (VCplx sh d)) = Some (MV (VCplx sh d) None None)).
+    { intros ->. unfold p_value. rewrite meta_0, meta_1, (meta_2 _ _ _ (cC_not_complex d)). unfold arr.
+      rewrite !cC_other by tauto. rewrite cC_2 by auto. chk Hwf. reflexivity. }
     destruct sh as [|n [|n2 sh']].
     - apply Hm. destruct d; reflexivity.
     - rewrite (rank1_shape _ _ Hwf). change (to_json true (VCplx [length d] d)) with (cC d).
@@ -314,7 +321,8 @@ Section Main.
       rewrite cX_4 by auto. cbn [relen]. rewrite map_length. reflexivity.
     - change (to_json true (VBox (n :: n2 :: sh') d)) with (JArr [shape_json (n :: n2 :: sh'); cX d]).
       unfold p_value. rewrite meta_0, meta_1, (meta_2 _ _ _ (cX_not_complex d)), meta_3, meta_4 by (cbn; congruence).
-      unfold arr. rewrite !cX_other by tauto. rewrite cX_4 by auto. reflexivity.
+      unfold arr. rewrite !cX_other by tauto. rewrite cX_4 by auto. cbn [option_map].
+      rewrite chk_ok by (cbn [data_len shape_of]; rewrite map_length; exact Hwf). reflexivity.
   Qed.
 End Main.
 
@@ -385,12 +393,13 @@ Lemma p_array_tuple3 self kd sh A B :
   p_coll true self kd [] (JArr [shape_json sh; A; B]) = None ->
   p_scalar true self kd (JArr [shape_json sh; A; B]) = None ->
   p_array true self kd (JArr [shape_json sh; A; B]) =
-    match map_try self kd sh A B with
-    | Some m => Some m
-    | None => match p_meta true B with
-              | Some lbl => option_map (fun v => MV v lbl None) (p_coll true self kd sh A)
-              | None => None end
-    end.
+    check_shape true
+    (match map_try self kd sh A B with
+     | Some m => Some m
+     | None => match p_meta true B with
+               | Some lbl => option_map (fun v => MV v lbl None) (p_coll true self kd sh A)
+               | None => None end
+     end).
 Proof.
   intros H1 H2. unfold p_array, map_try. rewrite H1, H2, p_shape_json.
   destruct (self A) as [[kv [l|] [k|]]|]; try reflexivity.
@@ -413,6 +422,19 @@ Qed.
 
 Definition kind_of (v : value) : nat :=
   match v with VByte _ _ => 0 | VNum _ [] => 0 | VNum _ _ => 1 | VCplx _ _ => 2 | VChar _ _ => 3 | VBox _ _ => 4 end%nat.
+
+Lemma wf_len v : wf_shape v = true -> Nat.eqb (data_len v) (shape_prod (shape_of v)) = true.
+Proof. destruct v; cbn [wf_shape data_len shape_of]; intros H; auto. apply andb_prop in H. tauto. Qed.
+
+Lemma reshaped_ok v : wf_shape v = true ->
+  let w := match norm v with
+           | VNum _ d => VNum (shape_of v) d | VByte _ d => VByte (shape_of v) d | VChar _ d => VChar (shape_of v) d
+           | VCplx _ d => VCplx (shape_of v) d | VBox _ d => VBox (shape_of v) d end in
+  Nat.eqb (data_len w) (shape_prod (shape_of w)) = true /\ w = norm v.
+Proof.
+  intros H. pose proof (wf_len v H) as E.
+  destruct v as [s [|? ?]|s d|s d|s d|s d]; cbn [norm data_len shape_of] in *; rewrite ?map_length; auto.
+Qed.
 
 Section Meta.
   Variable self : json -> option mval.
@@ -476,15 +498,15 @@ Section Meta.
     assert (HS : forall kd, p_scalar true self kd J = None).
     { intros kd. destruct kd as [|[|[|[|kd]]]]; reflexivity. }
     assert (HA : forall kd, (kd <= 4)%nat -> p_array true self kd J =
-               option_map (fun x => MV x (Some l) None) (p_coll true self kd (shape_of v) (coll_json true v))).
+               check_shape true (option_map (fun x => MV x (Some l) None) (p_coll true self kd (shape_of v) (coll_json true v)))).
     { intros kd Hk. unfold J. rewrite p_array_tuple3 by (apply HL || apply HS; auto).
       unfold map_try. rewrite metaJ_coll.
       destruct (self (coll_json true v)) as [[kv [?|] [?|]]|]; reflexivity. }
     assert (HK : (kind_of v <= 4)%nat) by (destruct v as [? [|? ?]| | | |]; cbn; lia).
     apply (p_value_first self J _ (kind_of v) HK).
     - intros kd Hk. rewrite HA by lia. rewrite Hlt by auto. reflexivity.
-    - rewrite HA by lia. rewrite Heq. cbn [option_map]. f_equal. f_equal.
-      destruct v as [s [|? ?]|s d|s d|s d|s d]; reflexivity.
+    - rewrite HA by lia. rewrite Heq. cbn [option_map].
+      destruct (reshaped_ok v Hwf) as [E1 E2]. rewrite chk_ok by exact E1. rewrite E2. reflexivity.
   Qed.
 End Meta.
 
@@ -508,38 +530,29 @@ Theorem label_json_roundtrip : forall v l, wf_shape v = true -> repr_ok v = true
   exists j, mto_json true (MV v (Some l) None) = Some j /\ of_json true j = Some (MV (norm v) (Some l) None).
 Proof. intros v l Hwf Hr Hd. apply (label_json_roundtrip_fuel v l 11); auto. Qed.
 
-(** ---- map keys: [shape, keys, coll] (ArrayRep::Map).  A box array of shape [1] is excluded:
-    [[1], keys, [{"b":..}]] is ALSO a list of three boxed values, which ArrayRep::List tries first
-    (see [map1_refuted]). *)
+(** ---- map keys: [shape, keys, coll] (ArrayRep::Map).  No exception any more: a boxed value reads
+    only from the object form, so [[1], keys, [{"b":..}]] is not a list of three boxes
+    (the old reader: [map1_refuted_pre]). *)
 Section MapKeys.
   Variable self : json -> option mval.
 
-  Lemma boxcoll_not_boxed s d : wf_shape (VBox s d) = true -> map1_free (VBox s d) = true ->
-    p_boxed self (shape_json s) = None \/ p_boxed self (cX d) = None.
-  Proof.
-    intros Hwf Hm. cbn [wf_shape] in Hwf. apply andb_prop in Hwf. destruct Hwf as [Hwf _].
-    apply PeanoNat.Nat.eqb_eq in Hwf.
-    destruct d as [|a [|b d]]; [right; reflexivity | | right; reflexivity].
-    left. destruct s as [|n [|n2 s']]; [reflexivity | | reflexivity].
-    cbn in Hwf. rewrite PeanoNat.Nat.mul_1_r in Hwf. subst n. discriminate.
-  Qed.
+  Lemma shape_not_boxed s : p_boxed true self (shape_json s) = None.
+  Proof. unfold shape_json. destruct (map (fun n => JInt (N.of_nat n)) s) as [|a [|b l]]; reflexivity. Qed.
 
-  Theorem map_roundtrip_step v k : wf_shape v = true -> repr_ok v = true -> map1_free v = true ->
+  Theorem map_roundtrip_step v k : wf_shape v = true -> repr_ok v = true ->
     Forall (fun x => self (to_json true x) = Some (MV (norm x) None None)) (match v with VBox _ d => d | _ => [] end) ->
     self (to_json true k) = Some (MV (norm k) None None) ->
     p_value true self (JArr [shape_json (shape_of v); to_json true k; coll_json true v]) =
       Some (MV (norm v) None (if Nat.eqb (rows (shape_of k)) (rows (shape_of v)) then Some (to_num (norm k)) else None)).
   Proof.
-    intros Hwf Hr Hm IH Hk. destruct (coll_table self v (shape_of v) Hr IH) as [Hlt Heq].
+    intros Hwf Hr IH Hk. destruct (coll_table self v (shape_of v) Hr IH) as [Hlt Heq].
     set (J := JArr [shape_json (shape_of v); to_json true k; coll_json true v]).
     assert (HL : forall kd, (kd <= kind_of v)%nat -> p_coll true self kd [] J = None).
     { intros kd Hkd. destruct kd as [|[|[|[|[|kd]]]]]; try reflexivity.
       - unfold J. cbn [p_coll]. rewrite opt_map3_none by (apply coll_not_complex_el; lia). reflexivity.
       - destruct v as [s d|s d|s d|s d|s d]; try (destruct d; cbn in Hkd; lia); try (cbn in Hkd; lia).
         unfold J. cbn [p_coll shape_of]. change (coll_json true (VBox s d)) with (cX d).
-        destruct (boxcoll_not_boxed s d Hwf Hm) as [E | E].
-        + rewrite opt_map_head_none by exact E. reflexivity.
-        + rewrite opt_map3_none by exact E. reflexivity. }
+        rewrite opt_map_head_none by apply shape_not_boxed. reflexivity. }
     assert (HS : forall kd, p_scalar true self kd J = None).
     { intros kd. destruct kd as [|[|[|[|kd]]]]; reflexivity. }
     assert (HK : (kind_of v <= 4)%nat) by (destruct v as [? [|? ?]| | | |]; cbn; lia).
@@ -547,39 +560,44 @@ Section MapKeys.
     - intros kd Hkd. unfold J. rewrite p_array_tuple3 by (apply HL || apply HS; lia).
       unfold map_try. rewrite Hk, (Hlt kd Hkd), coll_not_meta. reflexivity.
     - unfold J. rewrite p_array_tuple3 by (apply HL || apply HS; lia).
-      unfold map_try. rewrite Hk, Heq. rewrite norm_shape. f_equal. f_equal.
-      destruct v as [s [|? ?]|s d|s d|s d|s d]; reflexivity.
+      unfold map_try. rewrite Hk, Heq. rewrite norm_shape.
+      destruct (reshaped_ok v Hwf) as [E1 E2]. rewrite chk_ok by exact E1. rewrite E2. reflexivity.
   Qed.
 End MapKeys.
 
-Theorem map_json_roundtrip_fuel : forall v k f, wf_shape v = true -> repr_ok v = true -> map1_free v = true ->
+Theorem map_json_roundtrip_fuel : forall v k f, wf_shape v = true -> repr_ok v = true ->
   wf_shape k = true -> repr_ok k = true -> (vdepth v <= S f)%nat -> (vdepth k <= f)%nat ->
   exists j, mto_json true (MV v None (Some k)) = Some j /\
     of_json_fuel true (S f) j =
       Some (MV (norm v) None (if Nat.eqb (rows (shape_of k)) (rows (shape_of v)) then Some (to_num (norm k)) else None)).
 Proof.
-  intros v k f Hwf Hr Hm Hwk Hrk Hd Hdk. eexists. split; [reflexivity|].
+  intros v k f Hwf Hr Hwk Hrk Hd Hdk. eexists. split; [reflexivity|].
   cbn [of_json_fuel]. apply map_roundtrip_step; auto.
   - apply inner_IH; auto.
   - apply value_json_roundtrip_fuel; auto.
 Qed.
 
-Theorem map_json_roundtrip : forall v k, wf_shape v = true -> repr_ok v = true -> map1_free v = true ->
+Theorem map_json_roundtrip : forall v k, wf_shape v = true -> repr_ok v = true ->
   wf_shape k = true -> repr_ok k = true -> (vdepth v <= 12)%nat -> (vdepth k <= 11)%nat ->
   exists j, mto_json true (MV v None (Some k)) = Some j /\
     of_json true j =
       Some (MV (norm v) None (if Nat.eqb (rows (shape_of k)) (rows (shape_of v)) then Some (to_num (norm k)) else None)).
 Proof. intros. apply (map_json_roundtrip_fuel v k 11); auto. Qed.
 
-(** the excluded case is a defect of the current representation: the one-entry box map
-    {5 -> box 1} is written [[1],[5.0],[{"b":1}]] and reads back as a list of three boxes *)
-Theorem map1_refuted :
-  exists m j m', mto_json true m = Some j /\ of_json true j = Some m' /\ mval_same m' m = false /\
+(** record of the defect repaired by /repo 55312e0 (model with [cur = false], where a boxed value
+    also reads from a one-element sequence): the one-entry box map {5 -> box 1} was written
+    [[1],[5.0],[{"b":1}]] and read back as a list of three boxes *)
+Theorem map1_refuted_pre :
+  exists m j m', mto_json false m = Some j /\ of_json false j = Some m' /\ mval_same m' m = false /\
     m' = MV (VBox [3%nat] [VByte [] [1]; VNum [] [4617315517961601024]; VBox [] [VByte [] [1]]]) None None.
 Proof.
   exists (MV (VBox [1%nat] [VByte [] [1]]) None (Some (VNum [1%nat] [4617315517961601024]))). eexists. eexists.
   split; [vm_compute; reflexivity|]. split; [vm_compute; reflexivity|]. split; reflexivity.
 Qed.
+Example current_reads_one_row_box_map :
+  let m := MV (VBox [1%nat] [VByte [] [1]]) None (Some (VNum [1%nat] [4617315517961601024])) in
+  match mto_json true m with Some j => of_json true j = Some m | None => False end.
+Proof. vm_compute. reflexivity. Qed.
 
 (** the statements above in the form the tie evaluates ([meta_expect]) *)
 Theorem meta_json_roundtrip : forall m e j, meta_expect m = Some e -> mto_json true m = Some j ->
@@ -590,8 +608,8 @@ Proof.
   intros [v [l|] [k|]] e j He Hj Hp; cbn [meta_expect] in He; try discriminate.
   - destruct Hp as (H1 & H2 & H3 & _). inversion He; subst.
     destruct (label_json_roundtrip v l H1 H2 H3) as (j' & Ej & Er). congruence.
-  - destruct Hp as (H1 & H2 & H3 & H4 & H5 & H6). destruct (map1_free v) eqn:Em; [|discriminate]. inversion He; subst.
-    destruct (map_json_roundtrip v k H1 H2 Em H4 H5 H3 H6) as (j' & Ej & Er). congruence.
+  - destruct Hp as (H1 & H2 & H3 & H4 & H5 & H6). inversion He; subst.
+    destruct (map_json_roundtrip v k H1 H2 H4 H5 H3 H6) as (j' & Ej & Er). congruence.
   - destruct Hp as (H1 & H2 & H3 & _). inversion He; subst. cbn [mto_json] in Hj. inversion Hj; subst.
     apply value_json_roundtrip; auto.
 Qed.
